@@ -6,7 +6,7 @@ import operator
 INTS = [-3, -1, 0, 1, 2, 3, 4, 7]
 FLOATS = [-2.0, -0.5, 0.0, 0.25, 0.5, 1.0, 1.5, 2.0, 2.75, 4.0]
 STRS = ["", "a", "ab", "b", "cd", "abc", "Z", "a b"]
-NAMES = ["i", "f", "t", "a", "b", "c2", "idx", "u_v"]
+NAMES = ["i", "f", "t", "a", "b", "c2", "idx", "u_v", "w-s", "a~b"]  # the last two: legal DAP names that are not \w+ words
 OPS = {"<": ("lt", operator.lt), ">": ("gt", operator.gt), "!=": ("ne", operator.ne), "=": ("eq", operator.eq),
        ">=": ("ge", operator.ge), "<=": ("le", operator.le)}
 POOL = {"i": INTS, "f": FLOATS, "t": STRS}
